@@ -61,11 +61,18 @@ func (pc *parentController) callHook(
 		return nil, nil
 	}
 
+	// Drop null entries: every later step dereferences the children.
+	children := make([]*unstructured.Unstructured, 0, len(response.Children))
 	for _, child := range response.Children {
-		if child != nil && child.GetNamespace() == "" {
+		if child == nil {
+			continue
+		}
+		if child.GetNamespace() == "" {
 			child.SetNamespace(parent.GetNamespace())
 		}
+		children = append(children, child)
 	}
+	response.Children = children
 
 	return &response, nil
 }
